@@ -15,6 +15,7 @@ import ChumskyModel.Model.Pratt
 import ChumskyModel.Model.Drops
 import ChumskyModel.Model.Input
 import ChumskyModel.Model.Nested
+import ChumskyModel.Model.Delims
 open Chumsky
 
 abbrev P := StateT (List String) (Except String)
@@ -156,6 +157,9 @@ partial def gP : P G := do
   | "recvia" => do let a ← gP; let r ← gP; pure (.recoverVia a r)
   | "recskip" => do let a ← gP; let s ← gP; let u ← gP; let v ← valP; pure (.recoverSkipUntil a s u v)
   | "recretry" => do let a ← gP; let s ← gP; let u ← gP; pure (.recoverSkipRetry a s u)
+  -- `recover_with(via_parser(nested_delimiters(s, e, others, |span| span)))`; the recursive block is definition `K` (`ndblock`)
+  | "recnd" => do let a ← gP; let k ← nat; let s ← nat; let e ← nat; let _ ← natList; pure (.recoverVia a (ndTop k (s, e)))
+  | "ndblock" => do let k ← nat; let s ← nat; let e ← nat; let l ← natList; pure (ndBlock k (s, e) (ndPairs l))
   | "label" => do let l ← nat; let c ← boolP; pure (.labelled l c (← gP))
   | "maperr" => do let k ← nat; pure (.mapErr k (← gP))
   | "withctx" => do let v ← valP; pure (.withCtx v (← gP))
@@ -619,7 +623,11 @@ partial def loop (inp out : IO.FS.Stream) : IO Unit := do
       let mut k := 0
       for ts in c.inputs do
         let ne := mkNEnv c ts
-        out.putStrLn s!"{c.id}.{k} M {renderTop (parseTopN c.fuel ne c.mode c.g)}"
+        let top := parseTopN c.fuel ne c.mode c.g
+        out.putStrLn s!"{c.id}.{k} M {renderTop top}"
+        match top with
+        | .result r final => if r.output.isNone then out.putStrLn s!"{c.id}.{k} X {renderLogSummary ne.base final.log}"
+        | _ => pure ()
         out.putStrLn s!"{c.id}.{k} S {renderSpec (pegTopN c.fuel ne c.g)}"
         k := k + 1
     | .error e => out.putStrLn s!"ERR {e} :: {line.trimAscii.toString}"
